@@ -17,7 +17,7 @@ import os, json, subprocess, time, shutil, re, glob
 ROOT = os.path.dirname(os.path.dirname(os.path.abspath(__file__)))
 REPO = os.environ.get("VX_REPO", "/repo")
 SRC = os.path.join(REPO, "entrait_macros", "src")
-BUILD = os.path.join(ROOT, "build") if not os.environ.get("VX_SCRATCH_OUT") else os.path.join(ROOT, "build", "scratch")
+BUILD = os.path.join(ROOT, "build") if not os.environ.get("VX_SCRATCH_OUT") else os.path.join(ROOT, "build", "scratch" + ("-" + os.environ["VX_SCRATCH_ID"] if os.environ.get("VX_SCRATCH_ID") else ""))
 TARGET = os.path.join(BUILD, "replay-target")
 ENV = dict(os.environ, CARGO_NET_OFFLINE="true", CARGO_TARGET_DIR=TARGET)
 
@@ -56,7 +56,15 @@ def generate(dest):
                 out = os.path.join(dest, "src", rel)
                 g = os.path.join(ROOT, "replay", "glue", rel)
                 if os.path.exists(g):
-                    text = text + "\n// ---- appended by /verif (glue, append-only) ----\n" + open(g).read()
+                    glue = open(g).read()
+                    # glue may name private functions (`// vx-requires: <signature text>`); if the tree being checked
+                    # does not have them under that name and signature, the fallback glue is appended instead, so that
+                    # a renamed helper makes one contract report "not replayed" rather than break the whole harness
+                    needs = re.findall(r"^// vx-requires: (.+)$", glue, re.M)
+                    squash = lambda t: re.sub(r"\s+", "", t)
+                    if needs and not all(squash(n) in squash(text) for n in needs) and os.path.exists(g + ".fallback"):
+                        glue = open(g + ".fallback").read()
+                    text = text + "\n// ---- appended by /verif (glue, append-only) ----\n" + glue
             os.makedirs(os.path.dirname(out), exist_ok=True)
             open(out, "w").write(text)
     cdir = os.path.join(dest, "src", "vx_contracts")
